@@ -94,7 +94,7 @@ def replay(data):
 
 
 PARTIAL = [
-    "C13_reject_unclosed_loop_full: an opening bracket attached to a name and never closed (`x = a b( c`); proved: a pattern followed by an unmatched `)` or a detached `(`",
-    "C13_roundtrip_dl_domain_tabs_full (and the same for every kind): layouts containing tabs; the theorems are stated for tab-free text (on which expandtabs is the identity); the interpreter itself treats a tab as a blank",
+    "C13_roundtrip_structure_tabs / C13_roundtrip_complex_tabs carry the guard that the statement end does not start with a tab: a tab (like a blank) right after the dot-bracket is absorbed into the dot-bracket token (C13_structure_tab_after_dotbracket is the witness)",
+    "rejection theorems (unbalanced / unclosed brackets, missing sign, malformed number) are stated for tab-free text",
     "C13_reject_missing_name: REFUTED (C13_reject_missing_name_refuted): `length = 5` is a kernel complex named `length`",
 ]
